@@ -287,7 +287,12 @@ func genC07(rng *rand.Rand, n int, emit func(Case), dist map[string]int) {
 					escaped = true
 				}
 			}()
-			e.ServeHTTP(w, httptest.NewRequest(method, "/fail", nil))
+			// the query string is the client's: `pretty` only asks for indented JSON, whatever value it is given
+			target := "/fail" + []string{"", "", "", "?pretty", "?pretty=-1", "?pretty=true", "?a=1&pretty=0", "?pretty=-99999999999999999999&x=%zz", "?debug=1&verbose=true", "?pretty=9"}[rng.Intn(10)]
+			if strings.Contains(target, "pretty") {
+				dist["error_requests_asking_for_pretty_json"]++
+			}
+			e.ServeHTTP(w, httptest.NewRequest(method, target, nil))
 		}()
 		// second request on the same instance
 		w2 := httptest.NewRecorder()
